@@ -314,7 +314,9 @@ func init() {
 			o.Need("gauge_checks")
 			bes := newBackends(len(c.Holds))
 			defer closeBackends(bes)
-			sys, err := startSys(faultConfig(c.Strategy, bes, featureCfg{}), bes, true)
+			ghCfg := faultConfig(c.Strategy, bes, featureCfg{})
+			ghCfg.Server.Timeouts.Write = 3600 // the held requests outlast the 5 s write timeout of the fault configuration
+			sys, err := startSys(ghCfg, bes, true)
 			if err != nil {
 				o.Inconcl("startSys: %v", err)
 				return
